@@ -12,8 +12,30 @@ EXPLANATION = B.MIXED + (
     "(independent oracle), be a probability vector, and the reported outcome must have non-zero probability; every outcome branch is forced and re-run.")
 
 
+def key_linearity_obligations(rep):
+    """Shared with C14: successive outcomes of one call follow the conditional Born rule only if every draw consumes a fresh key."""
+    from vf.common import Obligation
+    from vf.pyvc import dataflow as D
+    for rel in B.STATE_FILES:
+        try:
+            sites = D.key_linearity(rel)
+        except Exception as ex:
+            rep.undecided.append(f"{rel}: {ex}")
+            continue
+        for r in sites:
+            fq = f"{rel}::{r['function']}"
+            oid = f"{fq}::dataflow:fresh-key-per-draw@{r['line']}"
+            rep.add_ob(Obligation(oid, fq, "dataflow", "dataflow", "discharged" if r["ok"] else "failed", detail=r["why"]))
+            if not r["ok"]:
+                rep.violation(f"{fq} line {r['line']}: sampling site does not consume a fresh key ({r['why']}): outcomes drawn in one call are correlated "
+                              "instead of following the conditional Born rule", key=f"P:{fq}:key-linearity",
+                              replay={"kind": "dataflow", "path": rel, "function": r["function"], "line": r["line"], "why": r["why"],
+                                      "failed_obligations": [oid]}, no_input=True)
+
+
 def run(rep, tier):
     kernels.oracle_self_check(rep)
     kernels.run_generators(rep, ["measure_vector", "measure_matrix"])
     kernels.run_scope(rep, B.STATE_FILES)
+    key_linearity_obligations(rep)
     B.run_b(rep, morecells.measure_cells(tier, common.seed()), ["C04"], explore=True, tier=tier)
